@@ -437,7 +437,7 @@ pub fn run(ctx: &Ctx) -> i32 {
         salt: 0x0501_0000,
         nshards: 64,
         enumerated: &enumerated,
-        random_cases: tier.pick(4_000_000, 60_000_000),
+        random_cases: tier.pick(4_000_000, 240_000_000),
         build_random: &|e| build(e, &Force::default()),
         classify: &|c, j, t: &Tag, s| classify(c, j, t, s),
         all_quirks: false,
